@@ -5267,8 +5267,18 @@ func readOffsets(b *Bitmap, data []byte, pos int, keyN uint32) error {
 		}
 
 		// Map byte slice directly to the container data.
-		citer.Next()
+		if !citer.Next() {
+			return fmt.Errorf("malformed bitmap, %d containers announced but keys repeat", keyN)
+		}
 		_, c := citer.Value()
+		// Verify the container's data lies within the input as well.
+		size := bitmapN * 8
+		if c.typ() == containerArray {
+			size = int(c.N()) * 2
+		}
+		if int(offset)+size > len(data) {
+			return fmt.Errorf("container data out of bounds: off=%d, size=%d, len=%d", offset, size, len(data))
+		}
 		switch c.typ() {
 		case containerArray:
 			c.setArray((*[0xFFFFFFF]uint16)(unsafe.Pointer(&data[offset]))[:c.N():c.N()])
@@ -5293,8 +5303,29 @@ func readWithRuns(b *Bitmap, data []byte, pos int, keyN uint32) error {
 	}
 	citer, _ := b.Containers.Iterator(0)
 	for i := 0; i < int(keyN); i++ {
-		citer.Next()
+		if !citer.Next() {
+			return fmt.Errorf("malformed bitmap, %d containers announced but keys repeat", keyN)
+		}
 		_, c := citer.Value()
+		// Verify the container's data lies within the input.
+		size := 0
+		switch c.typ() {
+		case containerRun:
+			if pos+runCountHeaderSize > len(data) {
+				return fmt.Errorf("run count out of bounds: pos=%d, len=%d", pos, len(data))
+			}
+			size = runCountHeaderSize + int(binary.LittleEndian.Uint16(data[pos:pos+runCountHeaderSize]))*interval16Size
+			if size == runCountHeaderSize {
+				return fmt.Errorf("malformed bitmap, run container without runs at pos=%d", pos)
+			}
+		case containerArray:
+			size = int(c.N()) * 2
+		case containerBitmap:
+			size = bitmapN * 8
+		}
+		if pos+size > len(data) {
+			return fmt.Errorf("container data out of bounds: pos=%d, size=%d, len=%d", pos, size, len(data))
+		}
 		switch c.typ() {
 		case containerRun:
 			runCount := binary.LittleEndian.Uint16(data[pos : pos+runCountHeaderSize])
